@@ -160,11 +160,12 @@ def gen_value(t, ty):
                 out.append(1 + t.choose(255, "strbyte"))
         return bytes(out)
     if ty in ("Vector", "Point2", "Point3"):
-        n = {"Point2": 2, "Point3": 3}.get(ty) or t.pick([0, 1, 2, 3, 6], "veclen")
+        n = {"Point2": 2, "Point3": 3}.get(ty) or t.wpick([(0, 3), (1, 3), (2, 3), (3, 3), (6, 3), (17, 1), (64, 1), (65, 1),
+                                                          (257, 0.5), (1000, 0.3)], "veclen")
         return [gen_double(t) for _ in range(n)]
     if ty == "Matrix":
-        m = t.pick([0, 1, 2, 3, 4], "rows")
-        n = t.pick([0, 1, 2, 3, 4], "cols")
+        m = t.wpick([(0, 3), (1, 3), (2, 3), (3, 3), (4, 3), (7, 1), (16, 0.7), (33, 0.5)], "rows")
+        n = t.wpick([(0, 3), (1, 3), (2, 3), (3, 3), (4, 3), (5, 1), (16, 0.7), (31, 0.5)], "cols")
         return (m, n, [gen_double(t) for _ in range(m * n)])
     raise ValueError(ty)
 
